@@ -4,6 +4,7 @@ package main
 
 import (
 	"fmt"
+	"os"
 	"go/types"
 	"sort"
 	"strings"
@@ -123,7 +124,50 @@ func (e *Exec) mutexCall(s *State, ins ssa.Instruction, op string, mu Value) {
 			}
 		}
 		s.held = append(s.held[:idx], s.held[idx+1:]...)
+		// from here on other threads may change everything the monitor guards: a later read of guarded
+		// state without the lock sees an arbitrary value (only the invariants hold again at the next Lock)
+		if os.Getenv("GOVC_NO_UNLOCK_HAVOC") == "" {
+			if e.fc != nil && e.fc.Region {
+				// the postconditions of a region function describe the state at its (last) Unlock
+				var names []string
+				for name := range s.heaps {
+					if !strings.HasPrefix(name, unlockSnap) {
+						names = append(names, name)
+					}
+				}
+				for _, name := range names {
+					s.heaps[unlockSnap+name] = s.heaps[name]
+					if srt, ok := e.heapSorts[name]; ok {
+						e.heapSorts[unlockSnap+name] = srt
+					}
+				}
+			}
+			e.havocGuarded(s, mon, objT, obj)
+		}
 	}
+}
+
+const unlockSnap = "$unlock:"
+
+// atLastUnlock: the state in which a region function's postconditions are evaluated — the heaps as
+// they were at the last Unlock on each path, everything else (results, locals, path condition) as at
+// the return.
+func (e *Exec) atLastUnlock(ret *State) *State {
+	if e.fc == nil || !e.fc.Region || ret == nil {
+		return ret
+	}
+	st := ret.clone()
+	for name, h := range ret.heaps {
+		if strings.HasPrefix(name, unlockSnap) {
+			st.heaps[strings.TrimPrefix(name, unlockSnap)] = h
+		}
+	}
+	for name := range st.heaps {
+		if strings.HasPrefix(name, unlockSnap) {
+			delete(st.heaps, name)
+		}
+	}
+	return st
 }
 
 func unionProps(ps ...[]string) []string {
